@@ -3,6 +3,11 @@
 import json, subprocess
 
 CLAIMED = {
+ "C04": dict(level="exploration",
+   text="Model-based testing of the real BackendReqHandler: every word up to depth 3 (quick) / 4 (thorough) over a 21-symbol reduced alphabet x {protocol features offered or not} is executed exhaustively, plus thousands of random histories (length <= 12) over all 44 request codes with generated bodies, NEED_REPLY flags and scripted handler outcomes; the bytes the server writes are compared frame by frame with a reference protocol model and a sentinel request proves exact consumption. Histories are an unbounded space, so bounded-exhaustive + random exploration is the level claimed.",
+   note="Trusted: spec.rs (request table and layouts transcribed from the vhost-user specification), the protocol model in props/c04.rs. Stated tolerances: the SET_PROTOCOL_FEATURES that flips REPLY_ACK may or may not be acked; requests rejected before the handler may produce nothing or one non-zero ack; SET_LOG_BASE reply payload and the 4 padding bytes of the inflight description are spec-silent.",
+   technique="model-based (stateful) property testing: bounded-exhaustive + proptest histories vs. reference protocol model",
+   ref="DESIGN.md section 3, C04"),
  "C20": dict(level="exploration",
    text="Exhaustive enumeration of a boundary lattice per message type (about 9.5 million bit patterns, complete for the lattice) plus random 64-bit patterns, each judged in both directions against an independent predicate written from the property text in u128 arithmetic. Validators are pure functions of a few integer fields whose rules only have boundaries at the lattice points, so lattice-exhaustive + random search is the right level; it is not a proof over all 2^k patterns.",
    note="Trusted: refpred.rs (hand-written from the property/spec), the verif-hooks accessors that expose the private header validators. Bit patterns the rules leave open (range ending exactly at 2^64, padding word of the single-region body, inflight mmap_size==0) are accepted either way and counted as spec_silent.",
